@@ -86,7 +86,8 @@ static Ext VAL(int k)
    default: return Ext(qq(-7, 5));
    }
 }
-static const char* VALNAME[] = {"-inf", "0", "1/3", "1e-320", "2^60+1", "inf", "-1", "2", "-7/5"};
+static const char* VALNAME[] = {"-inf", "0", "1/3", "1e-320", "2^60+1", "inf", "-1", "2", "-7/5", "<internally stored (scaled) value>"};
+static const int STORED = 9;   // dynamic value: what the floating-point LP currently stores internally for the addressed entity (collides with the 'unchanged' shortcuts)
 static Rational spxval(const Ext& e, SoPlex& spx) { return e.inf > 0 ? spx._rationalPosInfty : e.inf < 0 ? spx._rationalNegInfty : to_spx(e.v); }
 static double dval(const Ext& e) { return e.inf > 0 ? 1e100 : e.inf < 0 ? -1e100 : e.v.get_d(); }
 // what a double argument becomes in the rational LP
@@ -134,7 +135,8 @@ static std::vector<Op7> alphabet7(int n, int m)
       add(Q_CHGLHS, i, 0, 0, 0); add(Q_CHGLHS, i, 0, 8, 0); add(Q_CHGLHS_MPQ, i, 0, 2, 0); add(Q_CHGRHS, i, 0, 5, 0); add(Q_CHGRHS, i, 0, 4, 0);
       add(Q_CHGRANGE, i, 0, 2, 2); add(Q_CHGRANGE, i, 0, 0, 5); add(Q_CHGRANGE, i, 0, 3, 4); add(Q_CHGRANGE_MPQ, i, 0, 8, 2); add(Q_CHGRANGE_MPQ, i, 0, 0, 3);
       add(R_RMROW, i, 0, 0, 0); add(Q_RMROW, i, 0, 0, 0); add(R_CHGROW, i, 0, 6, 7); add(Q_CHGROW, i, 0, 0, 2);
-      for(int j : ci) { for(int f : {1, 2, 4}) add(Q_CHGELEM, i, j, f, 0); add(Q_CHGELEM_MPQ, i, j, 3, 0); add(Q_CHGELEM_MPQ, i, j, 8, 0); add(R_CHGELEM, i, j, 7, 0); add(R_CHGELEM, i, j, 1, 0); }
+      add(R_CHGLHS, i, 0, STORED, 0); add(R_CHGRHS, i, 0, STORED, 0); add(Q_CHGLHS, i, 0, STORED, 0); add(Q_CHGRHS, i, 0, STORED, 0); add(R_CHGRANGE, i, 0, STORED, STORED); add(R_CHGROW, i, 0, STORED, STORED);
+      for(int j : ci) { for(int f : {1, 2, 4}) add(Q_CHGELEM, i, j, f, 0); add(Q_CHGELEM_MPQ, i, j, 3, 0); add(Q_CHGELEM_MPQ, i, j, 8, 0); add(R_CHGELEM, i, j, 7, 0); add(R_CHGELEM, i, j, 1, 0); add(R_CHGELEM, i, j, STORED, 0); add(Q_CHGELEM, i, j, STORED, 0); }
    }
    if(m > 0) { add(R_CHGLHS_V, 0, 0, 0, 0); add(R_CHGLHS_V, 0, 0, 6, 0); add(Q_CHGRHS_V, 0, 0, 5, 0); add(Q_CHGRHS_V, 0, 0, 2, 0); add(Q_CHGRHS_MPQARR, 0, 0, 4, 0); add(Q_CHGRHS_MPQARR, 0, 0, 5, 0); add(Q_RMROWS_PERM, 1, 0, 0, 0); }
    for(int j : ci)
@@ -145,6 +147,8 @@ static std::vector<Op7> alphabet7(int n, int m)
       for(int f : fins) add(Q_CHGOBJ, j, 0, f, 0);
       add(Q_CHGOBJ_MPQ, j, 0, 2, 0); add(Q_CHGOBJ_MPQ, j, 0, 4, 0); add(R_CHGOBJ, j, 0, 7, 0); add(R_CHGOBJ, j, 0, 1, 0);
       add(R_RMCOL, j, 0, 0, 0); add(Q_RMCOL, j, 0, 0, 0); add(R_CHGCOL, j, 0, 6, 7); add(Q_CHGCOL, j, 0, 8, 2);
+      add(R_CHGLOWER, j, 0, STORED, 0); add(R_CHGUPPER, j, 0, STORED, 0); add(Q_CHGLOWER, j, 0, STORED, 0); add(Q_CHGUPPER, j, 0, STORED, 0); add(R_CHGBOUNDS, j, 0, STORED, STORED);
+      add(R_CHGOBJ, j, 0, STORED, 0); add(Q_CHGOBJ, j, 0, STORED, 0);
    }
    if(n > 0) { add(R_CHGUPPER_V, 0, 0, 5, 0); add(R_CHGUPPER_V, 0, 0, 7, 0); }
    add(R_SENSE, 0, 0, 0, 0); add(R_SENSE, 1, 0, 0, 0);
@@ -191,6 +195,26 @@ static bool apply7(SoPlex& spx, RModel& mo, const Op7& o, bool* swapLast)
    int n = mo.n(), m = mo.m();
    if(!valid7(o, n, m)) return false;
    Ext A = VAL(o.a), B = VAL(o.b);
+   if(o.a == STORED || o.b == STORED)
+   {
+      const SPxLPBase<double>& lp = *spx._realLP;
+      auto ext = [](double d) { return d >= 1e100 ? Ext::pinf() : d <= -1e100 ? Ext::minf() : ext_of_double(d); };
+      bool rowop = o.kind == R_CHGLHS || o.kind == Q_CHGLHS || o.kind == R_CHGRHS || o.kind == Q_CHGRHS || o.kind == R_CHGRANGE || o.kind == R_CHGROW || o.kind == R_CHGELEM || o.kind == Q_CHGELEM;
+      bool elem = o.kind == R_CHGELEM || o.kind == Q_CHGELEM;
+      if(rowop ? (o.i >= lp.nRows() || (elem && o.j >= lp.nCols())) : o.i >= lp.nCols()) return false;   // manual mode: the floating-point LP may be smaller than the rational one
+      switch(o.kind)
+      {
+      case R_CHGLHS: case Q_CHGLHS: A = ext(lp.lhs(o.i)); break;
+      case R_CHGRHS: case Q_CHGRHS: A = ext(lp.rhs(o.i)); break;
+      case R_CHGRANGE: case R_CHGROW: A = ext(lp.lhs(o.i)); B = ext(lp.rhs(o.i)); break;
+      case R_CHGLOWER: case Q_CHGLOWER: A = ext(lp.lower(o.i)); break;
+      case R_CHGUPPER: case Q_CHGUPPER: A = ext(lp.upper(o.i)); break;
+      case R_CHGBOUNDS: A = ext(lp.lower(o.i)); B = ext(lp.upper(o.i)); break;
+      case R_CHGOBJ: case Q_CHGOBJ: A = ext(lp.obj(o.i)); break;
+      case R_CHGELEM: case Q_CHGELEM: A = ext(lp.rowVector(o.i)[o.j]); break;
+      default: return false;
+      }
+   }
    auto rexact = [&](const Ext& e) { return ext_exact(dval(e)); };   // value after passing through a double argument
    switch(o.kind)
    {
@@ -373,11 +397,16 @@ static bool ext_matches_rational(const Ext& e, const Rational& r, SoPlex& spx)
    if(e.inf < 0) return r <= spx._rationalNegInfty;
    return from_spx(r) == e.v;
 }
+// set when the last failing comparison concerned a subnormal number (|value| < 2^-1022) whose stored image is another subnormal or zero: multiplying a subnormal by a power-of-two
+// scale factor is not exact, so persistent scaling loses its last bits - reported under its own rule
+static bool g_subnormal = false;
+static std::string subn() { return g_subnormal ? "-subnormal-under-scaling" : ""; }
 static bool ext_matches_real(const Ext& e, double d, Ctx& c)
 {
+   g_subnormal = false;
    if(e.inf > 0) return d >= 1e100;
    if(e.inf < 0) return d <= -1e100;
-   if(!is_image(d, e.v)) return false;
+   if(!is_image(d, e.v)) { g_subnormal = e.v != 0 && qabs(e.v) < q_of_double(2.2250738585072014e-308) && std::fabs(d) < 2.2250738585072014e-308; return false; }
    if(!is_nearest(d, e.v)) c.count("observation.real_image_not_nearest_double");
    return true;
 }
@@ -430,41 +459,42 @@ static std::string check_relation(SoPlex& spx, const RModel& mo, Ctx& c, bool ch
       if((spx.intParam(SoPlex::OBJSENSE) == SoPlex::OBJSENSE_MAXIMIZE) != mo.maximize) return "real-sense|";
       for(int i = 0; i < m; ++i)
       {
-         if(!ext_matches_real(mo.lhs[i], spx.lhsReal(i), c)) { o << "lhsReal(" << i << ")=" << spx.lhsReal(i) << " model " << mo.lhs[i].str(); return "real-side|" + o.str(); }
-         if(!ext_matches_real(mo.rhs[i], spx.rhsReal(i), c)) { o << "rhsReal(" << i << ")=" << spx.rhsReal(i) << " model " << mo.rhs[i].str(); return "real-side|" + o.str(); }
+         if(!ext_matches_real(mo.lhs[i], spx.lhsReal(i), c)) { o << "lhsReal(" << i << ")=" << spx.lhsReal(i) << " model " << mo.lhs[i].str(); return "real-side" + subn() + "|" + o.str(); }
+         if(!ext_matches_real(mo.rhs[i], spx.rhsReal(i), c)) { o << "rhsReal(" << i << ")=" << spx.rhsReal(i) << " model " << mo.rhs[i].str(); return "real-side" + subn() + "|" + o.str(); }
          for(int j = 0; j < n; ++j) if(!ext_matches_real(Ext(mo.A[i][j]), spx.coefReal(i, j), c))
             {
                o << "coefReal(" << i << "," << j << ")=" << spx.coefReal(i, j) << " model " << mo.A[i][j].get_str();
                // a nonzero entry below the zero tolerance (1e-16) that the real LP dropped is reported under its own rule
                bool tiny = spx.coefReal(i, j) == 0 && mo.A[i][j] != 0 && qabs(mo.A[i][j]) < q_of_double(1e-16);
-               return std::string(tiny ? "real-coefficient-below-epsilon-dropped|" : "real-coefficient|") + o.str();
+               return std::string(tiny ? "real-coefficient-below-epsilon-dropped|" : g_subnormal ? "real-coefficient-subnormal-under-scaling|" : "real-coefficient|") + o.str();
             }
       }
       for(int j = 0; j < n; ++j)
       {
-         if(!ext_matches_real(mo.lo[j], spx.lowerReal(j), c)) { o << "lowerReal(" << j << ")=" << spx.lowerReal(j) << " model " << mo.lo[j].str(); return "real-bound|" + o.str(); }
-         if(!ext_matches_real(mo.up[j], spx.upperReal(j), c)) { o << "upperReal(" << j << ")=" << spx.upperReal(j) << " model " << mo.up[j].str(); return "real-bound|" + o.str(); }
-         if(!ext_matches_real(Ext(mo.c[j]), spx.objReal(j), c)) { o << "objReal(" << j << ")=" << spx.objReal(j) << " model " << mo.c[j].get_str(); return "real-objective|" + o.str(); }
+         if(!ext_matches_real(mo.lo[j], spx.lowerReal(j), c)) { o << "lowerReal(" << j << ")=" << spx.lowerReal(j) << " model " << mo.lo[j].str(); return "real-bound" + subn() + "|" + o.str(); }
+         if(!ext_matches_real(mo.up[j], spx.upperReal(j), c)) { o << "upperReal(" << j << ")=" << spx.upperReal(j) << " model " << mo.up[j].str(); return "real-bound" + subn() + "|" + o.str(); }
+         if(!ext_matches_real(Ext(mo.c[j]), spx.objReal(j), c)) { o << "objReal(" << j << ")=" << spx.objReal(j) << " model " << mo.c[j].get_str(); return "real-objective" + subn() + "|" + o.str(); }
       }
    }
    if(checkRational && checkReal && !spx.areLPsInSync(true, true, true)) c.count("observation.areLPsInSync_false");
    return "";
 }
 
-static const char* INITN[] = {"empty-auto", "loaded-auto", "solved-auto-scaled", "rational-solved-auto"};
-static const int NINIT = 4;
+static const char* INITN[] = {"empty-auto", "loaded-auto", "solved-auto-scaled", "rational-solved-auto", "solved-auto-scaled-allfinite", "rational-solved-auto-eqtrans"};
+static const int NINIT = 6;
 static void make_init(SoPlex& spx, RModel& mo, int kind)
 {
    quiet(spx);
    spx.setIntParam(SoPlex::SYNCMODE, SoPlex::SYNCMODE_AUTO);
    mo = RModel();
    if(kind == 0) return;
-   TinyLP t = TinyLP::parse("n=2;m=2;max=1;off=0;c=1,2;lo=0,0;up=4,inf;lhs=-inf,-1;rhs=4,2;A=8,1|0.5,-2");
+   TinyLP t = TinyLP::parse(kind == 4 ? "n=2;m=2;max=1;off=0;c=1,2;lo=1,-2;up=4,16;lhs=-64,-1;rhs=8192,2;A=1024,16|0.5,-2"
+                                      : "n=2;m=2;max=1;off=0;c=1,2;lo=0,0;up=4,inf;lhs=-inf,-1;rhs=4,2;A=8,1|0.5,-2");
    load_real(spx, t, 0);
    XLP x = t.exact();
    mo.maximize = x.maximize; mo.c = x.c; mo.lo = x.lo; mo.up = x.up; mo.lhs = x.lhs; mo.rhs = x.rhs; mo.A = x.A;
-   if(kind == 2) { spx.setIntParam(SoPlex::SIMPLIFIER, SoPlex::SIMPLIFIER_OFF); spx.optimize(); }
-   if(kind == 3) { spx.setIntParam(SoPlex::SOLVEMODE, SoPlex::SOLVEMODE_RATIONAL); spx.optimize(); }
+   if(kind == 2 || kind == 4) { spx.setIntParam(SoPlex::SIMPLIFIER, SoPlex::SIMPLIFIER_OFF); spx.optimize(); }
+   if(kind == 3 || kind == 5) { spx.setBoolParam(SoPlex::EQTRANS, kind == 5); spx.setIntParam(SoPlex::SOLVEMODE, SoPlex::SOLVEMODE_RATIONAL); spx.optimize(); }
 }
 
 struct Hist7 { int init; std::vector<Op7> ops; };
